@@ -545,8 +545,12 @@ fn fails_same(sc: &C12Scenario, class: &str, refs: &mut RefCache) -> bool {
 pub fn minimise(sc: &C12Scenario, viol: &Violation, refs: &mut RefCache, budget: &mut usize) -> C12Scenario {
     let class = viol.class.clone();
     let mut best = sc.clone();
+    // shrinking stops after a number of attempts or after a wall-clock allowance, whichever
+    // comes first (one attempt on a marathon re-runs hundreds of jobs)
+    let t0 = Instant::now();
+    let allowance = std::time::Duration::from_secs(envnum("VERIF_MINIMISE_S", 240) as u64);
     let mut attempt = |cand: C12Scenario, best: &mut C12Scenario, refs: &mut RefCache, budget: &mut usize| -> bool {
-        if *budget == 0 {
+        if *budget == 0 || t0.elapsed() > allowance {
             return false;
         }
         *budget -= 1;
@@ -1081,7 +1085,7 @@ pub fn run_check(tier_name: &str, seed: u64, verif_dir: &str) -> Outcome {
     let mut vocabulary_jobs = 0usize;
     {
         let mut vrng = rng.fork(7);
-        let (n, len) = if tier.name == "thorough" { (8usize, 420usize) } else { (3usize, 200usize) };
+        let (n, len) = if tier.name == "thorough" { (8usize, 520usize) } else { (3usize, 330usize) };
         let n = envnum("VERIF_C12_VOCAB_MARATHONS", n);
         let len = envnum("VERIF_C12_VOCAB_LEN", len);
         let pool: Vec<usize> = (0..programs.len())
